@@ -105,8 +105,8 @@ def random_msgs(rng, n, asn4):
 
 def plan(tier, seed):
     n = 16
-    per = 12000 if tier == 'quick' else 400000
-    return [dict(part=i, nparts=n, seed=seed * 100 + i, n=per, tier=tier) for i in range(n)] + [dict(kind='e2e', seed=seed, n=60 if tier == 'quick' else 3000)]
+    per = 40000 if tier == 'quick' else 400000
+    return [dict(part=i, nparts=n, seed=seed * 100 + i, n=per, tier=tier) for i in range(n)] + [dict(kind='e2e', seed=seed, n=200 if tier == 'quick' else 3000)]
 
 
 def classify(rec):
